@@ -108,8 +108,15 @@ For a general description of dotted items (items) and ℇ-moves of items, see:
 */
 func (this *Item) Emoves() (items []*Item) {
 	newItems := util.NewStack(8).Push(this)
+	visited := make(map[string]bool)
 	for newItems.Len() > 0 {
 		item := newItems.Pop().(*Item)
+		if visited[item.hashKey] {
+			// a repetition or option whose body can match the empty string leads back to an
+			// item that has been expanded already
+			continue
+		}
+		visited[item.hashKey] = true
 
 		if item.Reduce() || item.nextIsTerminal() {
 			items = append(items, item)
